@@ -13,8 +13,10 @@ NA = {
  "C20":"nostd vocabulary types are sequential value/ownership types compared with std counterparts; no schedule, clock or fault dimension (DESIGN.md section 6)",
 }
 TECH = "deterministic simulation with fault injection (seeded schedule/fault search over the real SDK recompiled against scheduler-controlled std:: primitives; history oracle; minimised replay)"
-NOTE = ("sequentially consistent atomics only (the scheduler serialises tasks); preemption only at shimmed std:: operations "
-        "and harness yields; seeded sampling, no exhaustive enumeration; SDK compiled with -DNDEBUG, ABI v1, WITH_STL=OFF under ASan+UBSan")
+NOTE = ("sequentially consistent atomics only (the scheduler serialises tasks); preemption at shimmed std:: operations (before each, "
+        "after each publishing one), harness yields and - except in the queue and ctx engines - entries/exits of repository functions "
+        "(call-boundary points, DESIGN 2.2), never inside libstdc++/libc code; seeded sampling, no exhaustive enumeration; "
+        "SDK compiled with -DNDEBUG, ABI v1, WITH_STL=OFF under ASan+UBSan")
 ENGINES = {
  "queue": ("engines/queue.cc", "real CircularBuffer/AtomicUniquePtr/SpinLockMutex headers over scheduler-controlled std::atomic; spurious weak-CAS failures, task stalls"),
  "batch": ("engines/batch.cc", "real batch/simple/multi span+log processors, providers and PeriodicExportingMetricReader with stub exporters (fail/slow/stall fault plan), simulated clock and timers"),
@@ -31,7 +33,7 @@ CHECKS = {
  "C02": ("batch", "seeded search over concurrent flushers, shutdown callers, timeouts and exporter faults on batch processors, providers and the periodic reader; 'returned true => everything before is exported and the exporter was flushed', shutdown once and final, promptness after shutdown, bounded liveness (deadlock / point-budget detection)", "DESIGN.md section 4 (C02)"),
  "C03": ("batch", "in-flight Export counter checked at every Export entry of stub exporters that yield and sleep simulated time inside Export (simple processors from several tasks, batch worker vs ForceFlush/Shutdown, periodic reader vs ForceFlush); every batch of a batch processor within 1..max_export_batch_size including after earlier ForceFlush calls", "DESIGN.md section 4 (C03)"),
  "C04": ("span", "seeded search over span operation sequences issued by 1-2 tasks per span racing End, 1-3 processors of mixed kind, deferred export after caller buffers were overwritten and freed; exported SpanData compared with a reference model, once per processor", "DESIGN.md section 4 (C04)"),
- "C05": ("ident", "seeded search over span trees on 1-3 tasks mixing the three parenting mechanisms, remote/local parents, samplers and id generators; identity/flag/trace-state model, uniqueness of ids across tasks, cross-task isolation of active spans", "DESIGN.md section 4 (C05)"),
+ "C05": ("ident", "seeded search over span trees on 1-3 tasks mixing the three parenting mechanisms, remote/local parents, samplers and id generators, deep scope nests across the runtime stack's growth steps, and a simulated fork() of the calling task; identity/flag/trace-state model, uniqueness of ids across tasks and across a fork, cross-task isolation of active spans", "DESIGN.md section 4 (C05)"),
  "C10": ("ctx", "seeded search over SetValue/GetValue/Attach/Detach/Scope programs on 2-3 tasks sharing a family of contexts; per-task stack model and persistent-context model", "DESIGN.md section 4 (C10)"),
  "C13": ("logs", "seeded search over emit programs on 1-3 tasks with their own active-span stacks through simple/batch/multi processors with caller buffers overwritten/freed after Emit; record model, correlation model, once per processor", "DESIGN.md section 4 (C13)"),
  "C06": ("metrics", "seeded search over recorder tasks racing collector tasks for 1-3 readers of mixed temporality; base-4 coded measurements make exactly-once per reader decidable; abutting delta intervals under a non-repeating system clock", "DESIGN.md section 4 (C06)"),
